@@ -386,13 +386,17 @@ func parseProposalAnswer(str string, props []*Proposal, l *log.Logger) error {
 			}
 			prop.answer = Defer
 		case 'A', 'a', '!':
-			idx := strings.LastIndexAny(str, "0123456789")
-			if idx < 0 {
+			// The offset is the run of digits following the answer character
+			idx := 0
+			for idx < len(str) && str[idx] >= '0' && str[idx] <= '9' {
+				idx++
+			}
+			if idx == 0 {
 				return errors.New("Got offset request without offset index")
 			}
 			prop.answer = Accept // Offset is not implemented as a ProposalAnswer
-			prop.offset, _ = strconv.Atoi(str[:idx+1])
-			str = str[idx+1:]
+			prop.offset, _ = strconv.Atoi(str[:idx])
+			str = str[idx:]
 
 			if prop.offset > ProtocolOffsetSizeLimit { // RMS Express does this (in Winmor P2P for sure)
 				prop.offset = 0
